@@ -198,8 +198,9 @@ func (fs FileServer) serveFile(w http.ResponseWriter, r *http.Request) (int, err
 		}
 
 		encodedFileInfo, err := encodedFile.Stat()
-		if err != nil || fs.IsHidden(encodedFileInfo) {
-			// never serve a hidden file as the precompressed variant
+		if err != nil || fs.IsHidden(encodedFileInfo) || encodedFileInfo.IsDir() {
+			// never serve a hidden file as the precompressed variant,
+			// nor a directory that happens to have the sibling's name
 			encodedFile.Close()
 			continue
 		}
